@@ -349,7 +349,8 @@ def rewrite_rules(ctx, te, rule="C11.rewrite"):
     for name, steps in (("to_cnf_naive", ["__eliminate_iff(f)", "__apply_demorgan(__eliminate_iff(f))", "__distribute_ors_naive(__apply_demorgan(__eliminate_iff(f)))"]),):
         f = ctx.fn("logic:" + name)
         F = Facts(f)
-        ctx.check(F.assigns("formula")[:3] == steps and F.returns() == ["(formula, next_variable)"], rule, f, name,
+        ctx.check(F.assigns("formula")[:3] == steps and len(F.returns()) == 1 and F.returns()[0].endswith(", next_variable)") and F.returns()[0].startswith("(") and
+                  ("__distribute_ors_naive(__apply_demorgan(__eliminate_iff(f)))" in F.returns()[0] or F.returns()[0] == "(formula, next_variable)"), rule, f, name,
                   "eliminate Iff/If, push negations, distribute; no new variable (next_variable returned unchanged)",
                   "%s pipeline changed: %s returns %s" % (name, F.assigns("formula")[:3], F.returns()))
     # counter threading: every step is given the most recently produced counter of its branch, as a bare name
